@@ -490,10 +490,25 @@ func (g *generator) walkEnum(schema *schemaparser.Schema) (ast.Type, error) {
 			continue
 		}
 
+		// members are all strings, or all integers: nothing else can be declared as an enum
+		memberValue := unwrapJSONNumber(enumValue)
+		switch memberValue.(type) {
+		case string:
+			if !enumType.IsScalar() || enumType.AsScalar().ScalarKind != ast.KindString {
+				return ast.Type{}, fmt.Errorf("enum members must be all strings or all integers: '%v' is a string", enumValue)
+			}
+		case int64:
+			if !enumType.IsScalar() || enumType.AsScalar().ScalarKind == ast.KindString {
+				return ast.Type{}, fmt.Errorf("enum members must be all strings or all integers: '%v' is an integer", enumValue)
+			}
+		default:
+			return ast.Type{}, fmt.Errorf("enum members must be all strings or all integers: '%v' is neither", enumValue)
+		}
+
 		values = append(values, ast.EnumValue{
 			Type:  enumType,
 			Name:  fmt.Sprintf("%v", enumValue),
-			Value: unwrapJSONNumber(enumValue),
+			Value: memberValue,
 		})
 	}
 	if len(values) == 0 {
